@@ -202,6 +202,210 @@ class Sym:
 
 
 # ----------------------------------------------------------------------
+# one-level expansion of calls to private helpers (same class / module)
+
+def _clone(node):
+    """copy of an AST subtree without the parent links"""
+    if isinstance(node, list):
+        return [_clone(x) for x in node]
+    if not isinstance(node, ast.AST):
+        return node
+    new = node.__class__()
+    for f in node._fields:
+        if hasattr(node, f):
+            setattr(new, f, _clone(getattr(node, f)))
+    for a in node._attributes:
+        if hasattr(node, a):
+            setattr(new, a, getattr(node, a))
+    return new
+
+
+def _relink(node, parent):
+    node.parent = parent
+    for ch in ast.iter_child_nodes(node):
+        _relink(ch, node)
+
+
+def _private_callee(repo, rel, func, call):
+    """FunctionDef of `self._x(...)`, `cls._x(...)`, `<Class>._x(...)` or a
+    module-level `_x(...)` – private helpers only (extracted code)"""
+    f = call.func
+    cls = func.parent if isinstance(getattr(func, "parent", None),
+                                    ast.ClassDef) else None
+    name = None
+    scope = None
+    if isinstance(f, ast.Attribute) and isinstance(f.value, ast.Name) \
+            and cls is not None and f.value.id in ("self", "cls", cls.name):
+        name, scope = f.attr, cls
+    elif isinstance(f, ast.Name):
+        name, scope = f.id, repo.tree(rel)
+    if name is None or not name.startswith("_") or name.startswith("__"):
+        return None
+    cands = [d for d in scope.body if isinstance(d, ast.FunctionDef)
+             and d.name == name]
+    if len(cands) != 1 or cands[0] is func:
+        return None
+    return cands[0]
+
+
+def expand_private_calls(repo, rel, func):
+    """A copy of `func` in which every statement `self._helper(...)` /
+    `x = self._helper(...)` is replaced by the helper's body (parameters
+    bound to the arguments, helper locals renamed on collision).  The copy
+    hangs under the same class, so construct keys name the caller.  Helpers
+    that return from the middle are left as calls."""
+    sites = []
+    for st in walk(func):
+        if isinstance(st, ast.Expr) and isinstance(st.value, ast.Call):
+            callee = _private_callee(repo, rel, func, st.value)
+        elif isinstance(st, ast.Assign) and len(st.targets) == 1 \
+                and isinstance(st.value, ast.Call):
+            callee = _private_callee(repo, rel, func, st.value)
+        else:
+            continue
+        if callee is not None:
+            sites.append((st, callee))
+    if not sites:
+        return func
+    new = _clone(func)
+    # locate the cloned statements by position (walk order is the same)
+    olds = [n for n in walk(func)]
+    news = [n for n in walk(new)]
+    if len(olds) != len(news):
+        raise AnalysisError(f"{func.name}: clone mismatch")
+    where = {id(o): n for o, n in zip(olds, news)}
+    caller_names = {n.id for n in ast.walk(func) if isinstance(n, ast.Name)}
+    caller_names |= {a.arg for a in func.args.args}
+    done = 0
+    for st, callee in sites:
+        body = _inline_body(st, callee, caller_names, func)
+        if body is None:
+            continue
+        tgt = where[id(st)]
+        _replace_stmt(new, tgt, body)
+        done += 1
+    if not done:
+        return func
+    _relink(new, func.parent)
+    new.expanded_from = [c.name for _, c in sites]
+    return new
+
+
+def _replace_stmt(root, old, body):
+    for n in ast.walk(root):
+        for f in ("body", "orelse", "finalbody"):
+            lst = getattr(n, f, None)
+            if isinstance(lst, list):
+                for i, x in enumerate(lst):
+                    if x is old:
+                        lst[i:i + 1] = body
+                        return
+    raise AnalysisError("inline: statement not found")
+
+
+def _inline_body(st, callee, caller_names, func):
+    call = st.value
+    a = callee.args
+    if a.vararg or a.kwarg or a.posonlyargs or any(
+            isinstance(x, ast.Starred) for x in call.args) or any(
+            k.arg is None for k in call.keywords):
+        return None
+    params = [x.arg for x in a.args]
+    static = any(txt(d) == "staticmethod" for d in callee.decorator_list)
+    is_method = isinstance(callee.parent, ast.ClassDef)
+    bound = {}
+    pos = list(call.args)
+    if is_method and not static:
+        if not params:
+            return None
+        first = params.pop(0)
+        bound[first] = ast.Name(id="self", ctx=ast.Load()) if isinstance(
+            call.func, ast.Attribute) else None
+        if isinstance(call.func, ast.Attribute) and isinstance(
+                call.func.value, ast.Name) and call.func.value.id not in (
+                "self", "cls"):
+            # Class.method(obj, ...) form
+            if not pos:
+                return None
+            bound[first] = pos.pop(0)
+    if len(pos) > len(params):
+        return None
+    for p_, v in zip(params, pos):
+        bound[p_] = v
+    for k in call.keywords:
+        if k.arg not in params or k.arg in bound:
+            return None
+        bound[k.arg] = k.value
+    defaults = dict(zip(reversed([x.arg for x in a.args]),
+                        reversed(a.defaults)))
+    for x in a.kwonlyargs:
+        params.append(x.arg)
+    for x, dv in zip(a.kwonlyargs, a.kw_defaults):
+        if dv is not None:
+            defaults[x.arg] = dv
+    for p_ in params:
+        if p_ not in bound:
+            if p_ not in defaults:
+                return None
+            bound[p_] = defaults[p_]
+    body = [b for b in callee.body if not (
+        isinstance(b, ast.Expr) and isinstance(b.value, ast.Constant)
+        and isinstance(b.value.value, str))]
+    # returns: only a single trailing one
+    rets = [n for b in body for n in walk(b) if isinstance(n, ast.Return)]
+    tail = None
+    if rets:
+        if len(rets) != 1 or rets[0] is not body[-1]:
+            return None
+        tail = rets[0].value
+        body = body[:-1]
+    elif isinstance(st, ast.Assign):
+        return None
+    # renaming: parameters bound to an equally named plain name stay;
+    # everything else the helper binds gets a suffix when it collides
+    ren = {}
+    pre = []
+    for p_, v in bound.items():
+        if isinstance(v, ast.Name) and v.id == p_:
+            continue
+        ren[p_] = p_ + "__h" if p_ in caller_names else p_
+        asg = ast.Assign(targets=[ast.Name(id=ren[p_], ctx=ast.Store())],
+                         value=_clone(v), lineno=st.lineno,
+                         col_offset=st.col_offset)
+        pre.append(asg)
+    local = set()
+    for b in body:
+        for n in walk(b):
+            if isinstance(n, ast.Name) and isinstance(n.ctx, ast.Store):
+                local.add(n.id)
+    for nm in local:
+        if nm not in bound and nm in caller_names:
+            ren[nm] = nm + "__h"
+    out = pre + [_clone(b) for b in body]
+    if tail is not None and isinstance(st, ast.Assign):
+        out.append(ast.Assign(targets=[_clone(st.targets[0])],
+                              value=_clone(tail), lineno=st.lineno,
+                              col_offset=st.col_offset))
+    elif tail is not None and not isinstance(tail, (ast.Constant, ast.Name)):
+        out.append(ast.Expr(value=_clone(tail), lineno=st.lineno,
+                            col_offset=st.col_offset))
+    for b in out[len(pre):]:
+        for n in ast.walk(b):
+            if isinstance(n, ast.Name) and n.id in ren:
+                n.id = ren[n.id]
+    for b in out:
+        ast.fix_missing_locations(b)
+    if not out:
+        out = [ast.Pass(lineno=st.lineno, col_offset=st.col_offset)]
+    return out
+
+
+def wfunc(repo, rel, qual):
+    """function with calls to private helpers expanded (one level)"""
+    return expand_private_calls(repo, rel, repo.func(rel, qual))
+
+
+# ----------------------------------------------------------------------
 # the resize-and-append frame shared by write_ndarray and write_text
 
 class Frame:
@@ -661,14 +865,225 @@ def r13(ctx, func, fr):
     if M is None:
         raise AnalysisError(f"write_text: dtype `{short(dt, 40)}` of the new "
                             f"dataset not recognised")
-    # M = max(M, len(B)) unconditionally in a loop over all lines
     upd = [n for n in walk(func) if isinstance(n, (ast.Assign, ast.AugAssign))
            and any(isinstance(t, ast.Name) and t.id == M for t in (
                n.targets if isinstance(n, ast.Assign) else [n.target]))
            and _loop_of(n, func) is not None]
-    if len(upd) != 1:
-        raise AnalysisError(f"write_text: expected one update of `{M}` in "
-                            f"the loop over the lines, found {len(upd)}")
+    if len(upd) > 1:
+        raise AnalysisError(f"write_text: {len(upd)} updates of `{M}` in "
+                            f"loops")
+    if upd:
+        _r13_loop_form(ctx, func, fr, cfg, M, upd)
+    else:
+        _r13_comprehension_form(ctx, func, fr, cfg, M)
+    _r13_guard(ctx, func, fr, cfg, M)
+
+
+def _stored_lists(func, fr):
+    """names of the lists whose elements are stored (enumerate(<list>))"""
+    out = set()
+    for st in fr.stores:
+        lp = _loop_of(st, func)
+        if isinstance(lp, ast.For) and isinstance(lp.iter, ast.Call) \
+                and lp.iter.args and isinstance(lp.iter.args[0], ast.Name):
+            out.add(lp.iter.args[0].id)
+    return out
+
+
+def _encoded_elt(elt, var):
+    """`elt` is the encoded form of comprehension variable `var`:
+    var.encode(..) or a conditional that passes bytes through"""
+    def is_enc(e):
+        return isinstance(e, ast.Call) and last_attr(e) == "encode" \
+            and isinstance(e.func, ast.Attribute) \
+            and isinstance(e.func.value, ast.Name) and e.func.value.id == var
+
+    def is_var(e):
+        return isinstance(e, ast.Name) and e.id == var
+    if is_enc(elt):
+        return True
+    if isinstance(elt, ast.IfExp):
+        t = elt.test
+        neg = False
+        if isinstance(t, ast.UnaryOp) and isinstance(t.op, ast.Not):
+            t, neg = t.operand, True
+        if _is_bytes_fact(t, True, var):
+            raw, enc = (elt.orelse, elt.body) if neg else (elt.body,
+                                                           elt.orelse)
+            return is_var(raw) and is_enc(enc)
+    return False
+
+
+def _width_sources(e, M):
+    """items of a `max(...)` expression: ('const', v), ('keep',) for the
+    width variable itself, ('lens', list name, elt ok, filtered)"""
+    if isinstance(e, ast.Call) and call_name(e) == "max" and not e.keywords:
+        out = []
+        for a in e.args:
+            out += _width_sources(a, M)
+        return out
+    if isinstance(e, ast.Starred):
+        return _width_sources(e.value, M)
+    if isinstance(e, ast.BinOp) and isinstance(e.op, ast.Add):
+        return _width_sources(e.left, M) + _width_sources(e.right, M)
+    if isinstance(e, (ast.List, ast.Tuple)):
+        out = []
+        for x in e.elts:
+            out += _width_sources(x, M)
+        return out
+    if isinstance(e, ast.Constant) and isinstance(e.value, int):
+        return [("const", e.value)]
+    if isinstance(e, ast.Name) and e.id == M:
+        return [("keep",)]
+    if isinstance(e, (ast.ListComp, ast.GeneratorExp)) \
+            and len(e.generators) == 1:
+        g = e.generators[0]
+        if isinstance(g.target, ast.Name) and isinstance(g.iter, ast.Name):
+            elt_ok = isinstance(e.elt, ast.Call) and call_name(
+                e.elt) == "len" and len(e.elt.args) == 1 and isinstance(
+                e.elt.args[0], ast.Name) and e.elt.args[0].id == g.target.id
+            return [("lens", g.iter.id, elt_ok, bool(g.ifs))]
+    raise AnalysisError(f"write_text: width expression part "
+                        f"`{short(e, 40)}` not recognised")
+
+
+def _r13_comprehension_form(ctx, func, fr, cfg, M):
+    """M = max(<constants> + [len(b) for b in LIST]) with LIST the stored
+    list of encoded lines"""
+    defs = [n for n in walk(func) if isinstance(n, ast.Assign)
+            and any(isinstance(t, ast.Name) and t.id == M
+                    for t in n.targets)]
+    wide = [d for d in defs if not isinstance(d.value, ast.Constant)]
+    if len(wide) != 1:
+        raise AnalysisError(f"write_text: definition of `{M}` not "
+                            f"recognised")
+    wdef = wide[0]
+    items = _width_sources(wdef.value, M)
+    stored = _stored_lists(func, fr)
+    if len(stored) != 1:
+        raise AnalysisError("write_text: stored list not identified")
+    LIST = next(iter(stored))
+    lens = [it for it in items if it[0] == "lens"]
+    ok = any(it[1] == LIST and it[2] and not it[3] for it in lens)
+    ctx.ob("R1.3", ok, f"`{M}` is the maximum over every stored line" if ok
+           else f"`{M}` = `{short(wdef.value, 50)}` does not take the "
+           f"length of every element of `{LIST}`", node=wdef,
+           label="width is max over all lines")
+    if not ok:
+        return
+    # the measured list is the stored list: same reaching definitions and
+    # no growth in between
+    store_loop = [_loop_of(st, func) for st in fr.stores][0]
+    rd_m = reaching_defs(cfg, LIST, wdef)
+    rd_s = reaching_defs(cfg, LIST, store_loop)
+    after = cfg.reach(cfg.ids_of(wdef))
+    grows = [c for c in walk(func) if isinstance(c, ast.Call)
+             and last_attr(c) in ("append", "extend", "insert")
+             and isinstance(c.func, ast.Attribute)
+             and isinstance(c.func.value, ast.Name)
+             and c.func.value.id == LIST
+             and set(cfg.ids_of(_stmt_of(c))) & after]
+    ok = rd_m == rd_s and not grows and "param" not in rd_s
+    ctx.ob("R1.3", ok, f"the width is measured on the elements of `{LIST}` "
+           f"that are stored" if ok else
+           f"`{LIST}` changes between the width measurement and the store",
+           node=wdef, label="width measured on stored bytes")
+    ok, bad = _list_holds_encoded(func, fr, cfg, LIST, rd_s)
+    ctx.ob("R1.3", ok, f"`{LIST}` holds the encoded line for every line "
+           f"(bytes pass through)" if ok else
+           f"`{LIST}` is not the list of encoded lines "
+           f"(`{short(bad[0].ast, 50) if bad else '?'}`)", node=wdef,
+           label="stored object is encoded")
+
+
+def _list_holds_encoded(func, fr, cfg, LIST, rd_s):
+    """every definition of LIST in `rd_s` builds the list of encoded lines
+    (comprehension over the lines, or one append per line)"""
+    bad = []
+    n_ok = 0
+    lines = _lines_param(func)
+    for i in sorted(x for x in rd_s if isinstance(x, int)):
+        n = cfg.nodes[i]
+        v = n.ast.value if n.kind == "stmt" and isinstance(
+            n.ast, ast.Assign) else None
+        if isinstance(v, ast.ListComp) and len(v.generators) == 1 \
+                and not v.generators[0].ifs \
+                and isinstance(v.generators[0].target, ast.Name) \
+                and isinstance(v.generators[0].iter, ast.Name) \
+                and v.generators[0].iter.id == lines \
+                and _encoded_elt(v.elt, v.generators[0].target.id):
+            n_ok += 1
+        elif isinstance(v, ast.List) and not v.elts \
+                and _appended_value_check(None, func, fr, cfg, LIST):
+            n_ok += 1
+        else:
+            bad.append(n)
+    ok = not bad and n_ok >= 1 and "param" not in rd_s
+    return ok, bad
+
+
+def _appended_value_check(ctx, func, fr, cfg, LIST):
+    """LIST is filled by one unconditional append per line with a value
+    whose reaching definitions are all encoded (see the loop form)"""
+    lines = _lines_param(func)
+    for lp in walk(func):
+        if isinstance(lp, ast.For) and isinstance(lp.iter, ast.Name) \
+                and lp.iter.id == lines:
+            apps = [st for st in lp.body if isinstance(st, ast.Expr)
+                    and isinstance(st.value, ast.Call)
+                    and last_attr(st.value) == "append"
+                    and isinstance(st.value.func.value, ast.Name)
+                    and st.value.func.value.id == LIST
+                    and len(st.value.args) == 1
+                    and isinstance(st.value.args[0], ast.Name)]
+            if len(apps) == 1:
+                Y = apps[0].value.args[0].id
+                rd = reaching_defs(cfg, Y, apps[0])
+                bad, n_enc = _unencoded_defs(cfg, rd, Y, apps[0])
+                return not bad and n_enc >= 1
+    return False
+
+
+def _unencoded_defs(cfg, rd_a, Y, app_stmt):
+    """definitions in `rd_a` through which an unencoded line can reach the
+    append"""
+    bad = []
+    n_enc = 0
+    for i in sorted(x for x in rd_a if isinstance(x, int)):
+        n = cfg.nodes[i]
+        if n.kind == "stmt" and isinstance(n.ast, ast.Assign) \
+                and isinstance(n.ast.value, ast.Call) \
+                and last_attr(n.ast.value) == "encode":
+            n_enc += 1
+            continue
+        if n.kind == "stmt" and isinstance(n.ast, ast.Assign) \
+                and isinstance(n.ast.value, ast.Name):
+            # copy of the raw line: the copy itself must be bytes-guarded
+            src = n.ast.value.id
+            if guarded_by(cfg, i, lambda e, t, v=src: _is_bytes_fact(
+                    e, t, v)):
+                continue
+            bad.append(n)
+            continue
+        if n.kind == "for":
+            def est(src_n, lab, dst_n, v=Y):
+                if src_n.kind != "test" or lab not in ("T", "F"):
+                    return False
+                return any(_is_bytes_fact(e, t, v) for e, t in branch_facts(
+                    src_n.ast.test, lab == "T"))
+            r = cfg.reach([i], avoid_node=lambda m, v=Y: _binds(m, v),
+                          avoid_edge=est)
+            if set(cfg.ids_of(app_stmt)) & r:
+                bad.append(n)
+            continue
+        bad.append(n)
+    if "param" in rd_a:
+        bad.append(None)
+    return bad, n_enc
+
+
+def _r13_loop_form(ctx, func, fr, cfg, M, upd):
+    """M = max(M, len(B)) unconditionally in a loop over all lines"""
     upd = upd[0]
     loop = upd.parent
     args = upd.value.args if isinstance(upd.value, ast.Call) and call_name(
@@ -679,7 +1094,7 @@ def r13(ctx, func, fr):
     keeps = [a for a in args if isinstance(a, ast.Name) and a.id == M]
     ok = (isinstance(loop, ast.For) and upd in loop.body
           and isinstance(loop.iter, ast.Name)
-          and loop.iter.id == _lines_param(func)
+          and loop.iter.id in {_lines_param(func)} | _stored_lists(func, fr)
           and len(args) == 2 and len(lens) == 1 and len(keeps) == 1)
     ctx.ob("R1.3", ok, f"`{M}` is the running maximum over every line"
            if ok else f"`{M}` is not updated as max({M}, len(<line>)) for "
@@ -687,16 +1102,28 @@ def r13(ctx, func, fr):
     if not ok:
         return
     B = lens[0].args[0].id
+    stored_lists = _stored_lists(func, fr)
+    if isinstance(loop.iter, ast.Name) and loop.iter.id in stored_lists:
+        # the loop runs over the stored list itself
+        LIST = loop.iter.id
+        store_loop = [_loop_of(st, func) for st in fr.stores][0]
+        rd_m = reaching_defs(cfg, LIST, loop)
+        rd_s = reaching_defs(cfg, LIST, store_loop)
+        ok = isinstance(loop.target, ast.Name) and loop.target.id == B \
+            and rd_m == rd_s
+        ctx.ob("R1.3", ok, f"the width is measured on the elements of "
+               f"`{LIST}` that are stored" if ok else
+               f"the width is not measured on the stored elements of "
+               f"`{LIST}`", node=upd, label="width measured on stored bytes")
+        ok, bad = _list_holds_encoded(func, fr, cfg, LIST, rd_s)
+        ctx.ob("R1.3", ok, f"`{LIST}` holds the encoded line for every line"
+               if ok else f"`{LIST}` is not the list of encoded lines",
+               node=upd, label="stored object is encoded")
+        return
     # the measured object is what gets appended to the stored list, and it
     # is the encoded form
     apps = [c for c in find_calls(loop, attr="append")
             if isinstance(c.func.value, ast.Name) and len(c.args) == 1]
-    stored_lists = set()
-    for st in fr.stores:
-        lp = _loop_of(st, func)
-        if isinstance(lp, ast.For) and isinstance(lp.iter, ast.Call) \
-                and lp.iter.args and isinstance(lp.iter.args[0], ast.Name):
-            stored_lists.add(lp.iter.args[0].id)
     apps = [c for c in apps if c.func.value.id in stored_lists]
     if len(apps) != 1:
         raise AnalysisError("write_text: the list of stored lines is not "
@@ -727,45 +1154,17 @@ def r13(ctx, func, fr):
            node=upd, label="width measured on stored bytes")
     # every definition reaching the append is the encoded form; an
     # unencoded line passes only along a path that tested it to be bytes
-    bad = []
-    n_enc = 0
-    for i in sorted(x for x in rd_a if isinstance(x, int)):
-        n = cfg.nodes[i]
-        if n.kind == "stmt" and isinstance(n.ast, ast.Assign) \
-                and isinstance(n.ast.value, ast.Call) \
-                and last_attr(n.ast.value) == "encode":
-            n_enc += 1
-            continue
-        if n.kind == "stmt" and isinstance(n.ast, ast.Assign) \
-                and isinstance(n.ast.value, ast.Name):
-            # copy of the raw line: the copy itself must be bytes-guarded
-            src = n.ast.value.id
-            if guarded_by(cfg, i, lambda e, t, v=src: _is_bytes_fact(
-                    e, t, v)):
-                continue
-            bad.append(n)
-            continue
-        if n.kind == "for":
-            # the raw loop element: may reach the append only through a
-            # branch that established isinstance(<element>, bytes)
-            def est(src_n, lab, dst_n, v=Y):
-                if src_n.kind != "test" or lab not in ("T", "F"):
-                    return False
-                return any(_is_bytes_fact(e, t, v) for e, t in branch_facts(
-                    src_n.ast.test, lab == "T"))
-            r = cfg.reach([i], avoid_node=lambda m, v=Y: _binds(m, v),
-                          avoid_edge=est)
-            if set(cfg.ids_of(app_stmt)) & r:
-                bad.append(n)
-            continue
-        bad.append(n)
-    if "param" in rd_a:
-        bad.append(None)
+    bad, n_enc = _unencoded_defs(cfg, rd_a, Y, app_stmt) if Y else ([None],
+                                                                     0)
     ok = not bad and n_enc >= 1
     ctx.ob("R1.3", ok, f"`{Y}` is the encoded line where it is stored "
            f"(bytes pass through)" if ok else
            f"an unencoded line can reach `{short(app, 40)}`", node=app,
            label="stored object is encoded")
+
+
+def _r13_guard(ctx, func, fr, cfg, M):
+    D = fr.D
     # -- guard on the append path
     open_ids = cfg.ids_of(fr.open)
     store_ids = set()
@@ -910,7 +1309,7 @@ def arange_bounds(e, rat):
 
 
 def r14(ctx, repo):
-    sf = repo.func(WR, "RTDCWriter.store_feature")
+    sf = wfunc(repo, WR, "RTDCWriter.store_feature")
     br = [n for n in walk(sf) if isinstance(n, ast.If)
           and isinstance(n.test, ast.Compare) and len(n.test.ops) == 1
           and isinstance(n.test.ops[0], ast.Eq)
@@ -1043,23 +1442,58 @@ def _is_presence(test, events):
 # ----------------------------------------------------------------------
 # R1.5
 
-def group_literals(node, bases):
+def deref(repo, rel, func, node, depth=0):
+    """Follow a plain name to its value: a local with exactly one
+    assignment in `func`, else a module-level constant of `rel`.  Returns
+    the node itself when it is not a name; raises AnalysisError when a name
+    cannot be resolved (never a verdict)."""
+    if not isinstance(node, ast.Name) or depth > 4:
+        return node
+    if func is not None:
+        params = {a.arg for a in func.args.args + func.args.kwonlyargs}
+        defs = [n for n in walk(func) if isinstance(n, ast.Assign)
+                and any(isinstance(t, ast.Name) and t.id == node.id
+                        for t in n.targets)]
+        other = [n for n in walk(func) if isinstance(
+            n, (ast.AugAssign, ast.For, ast.comprehension))
+            and node.id in names_in(n.target)]
+        if node.id in params and not defs:
+            return node
+        if len(defs) == 1 and not other and node.id not in params:
+            return deref(repo, rel, func, defs[0].value, depth + 1)
+        if defs or other:
+            raise AnalysisError(f"{func.name}: `{node.id}` has several "
+                                f"definitions – cannot resolve")
+    val = repo.module_assign(rel, node.id, missing_ok=True)
+    if val is None:
+        raise AnalysisError(f"{rel}: name `{node.id}` cannot be resolved")
+    return deref(repo, rel, None, val, depth + 1)
+
+
+def group_literals(node, bases, repo=None, rel=None):
     """string constants used as `<base>["x"]`, `"x" in <base>`,
-    `<base>.require_group("x")`, `<base>.get("x", ...)`"""
+    `<base>.require_group("x")`, `<base>.get("x", ...)`; a plain name is
+    resolved through the module-level constants of `rel`"""
+    def lit(e):
+        v = const_str(e)
+        if v is None and isinstance(e, ast.Name) and repo is not None:
+            m = repo.module_assign(rel, e.id, missing_ok=True)
+            v = const_str(m) if m is not None else None
+        return v
     out = set()
     for n in walk(node, nested=True):
         if isinstance(n, ast.Subscript) and txt(n.value) in bases \
-                and const_str(n.slice):
-            out.add(const_str(n.slice).split("/")[0])
+                and lit(n.slice):
+            out.add(lit(n.slice).split("/")[0])
         elif isinstance(n, ast.Compare) and len(n.ops) == 1 and isinstance(
-                n.ops[0], (ast.In, ast.NotIn)) and const_str(n.left) \
+                n.ops[0], (ast.In, ast.NotIn)) and lit(n.left) \
                 and txt(n.comparators[0]) in bases:
-            out.add(const_str(n.left).split("/")[0])
+            out.add(lit(n.left).split("/")[0])
         elif isinstance(n, ast.Call) and last_attr(n) in (
                 "require_group", "get", "create_group") and isinstance(
                 n.func, ast.Attribute) and txt(n.func.value) in bases \
-                and n.args and const_str(n.args[0]):
-            out.add(const_str(n.args[0]).split("/")[0])
+                and n.args and lit(n.args[0]):
+            out.add(lit(n.args[0]).split("/")[0])
     return out
 
 
@@ -1105,11 +1539,11 @@ def r15(ctx, repo):
     ]
     all_w = set()
     for meth, rel, rq, rbases, role in pairs:
-        wf = repo.func(WR, f"RTDCWriter.{meth}")
-        wl = group_literals(wf, bases_w)
+        wf = wfunc(repo, WR, f"RTDCWriter.{meth}")
+        wl = group_literals(wf, bases_w, repo, WR)
         all_w |= wl
         rn = repo.lookup(rel, rq)
-        rl = group_literals(rn, rbases)
+        rl = group_literals(rn, rbases, repo, rel)
         ok = len(rl) == 1 and rl <= wl
         ctx.ob("R1.5", ok,
                f"{meth} writes group {sorted(wl)} and {rq.split('.')[0]} "
@@ -1119,8 +1553,8 @@ def r15(ctx, repo):
                key=f"{WR}::RTDCWriter.{meth}::group name agrees with reader")
     # copier only addresses groups the writer knows
     for fn in ("rtdc_copy", "basin_definition_copy"):
-        cf = repo.func(CP, fn)
-        cl = group_literals(cf, {"src_h5file", "dst_h5file"})
+        cf = wfunc(repo, CP, fn)
+        cl = group_literals(cf, {"src_h5file", "dst_h5file"}, repo, CP)
         if not cl:
             raise AnalysisError(f"{fn}: no group literals found")
         extra = cl - all_w
@@ -1133,8 +1567,8 @@ def r15(ctx, repo):
             # paired src/dst access inside one statement
             if isinstance(n, ast.Call) and last_attr(n) in (
                     "h5ds_copy", "create_dataset"):
-                s = group_literals(n, {"src_h5file"})
-                d = group_literals(n, {"dst_h5file"})
+                s = group_literals(n, {"src_h5file"}, repo, CP)
+                d = group_literals(n, {"dst_h5file"}, repo, CP)
                 if s and d:
                     ctx.ob("R1.5", s == d, f"copy stays inside group "
                            f"{sorted(s)}" if s == d else
@@ -1143,7 +1577,7 @@ def r15(ctx, repo):
                            label=f"copy within group {sorted(s)[0]} "
                                  f"[{last_attr(n)}]")
     # contour naming
-    wr = repo.func(WR, "RTDCWriter.write_ragged")
+    wr = wfunc(repo, WR, "RTDCWriter.write_ragged")
     cds = find_calls(wr, attr="create_dataset")
     if len(cds) != 1:
         raise AnalysisError("write_ragged: create_dataset lost")
@@ -1174,10 +1608,12 @@ def r15(ctx, repo):
            if ok else f"reader's first contour name is {sorted(first)}",
            node=init, label="first contour is '0'", nontrivial=False)
     # trace
-    sf = repo.func(WR, "RTDCWriter.store_feature")
-    tr_groups = {const_str(c.args[0]) for c in find_calls(
-        sf, attr="require_group") if c.args and txt(c.func.value) != "self."
-        "h5file"}
+    sf = wfunc(repo, WR, "RTDCWriter.store_feature")
+    tr_groups = {const_str(deref(repo, WR, sf, c.args[0]))
+                 for c in find_calls(sf, attr="require_group")
+                 if c.args and txt(c.func.value) != "self.h5file"}
+    if None in tr_groups:
+        raise AnalysisError("store_feature: sub-group name not a constant")
     gi = repo.func(EV, "H5Events.__getitem__")
     disp = {}
     for n in walk(gi):
@@ -1200,14 +1636,18 @@ def r15(ctx, repo):
            node=val[0] if val else sf, label="trace keys validated",
            nontrivial=False)
     # mask: uint8 * k on write, bool on read, same feature name
-    wg = repo.func(WR, "RTDCWriter.write_image_grayscale")
+    wg = wfunc(repo, WR, "RTDCWriter.write_image_grayscale")
     mults = [n for n in walk(wg) if isinstance(n, ast.BinOp)
              and isinstance(n.op, ast.Mult) and "uint8" in txt(n)]
     if len(mults) != 1:
         raise AnalysisError("write_image_grayscale: bool -> uint8 "
                             "conversion lost")
-    kk = [x for x in (mults[0].left, mults[0].right)
+    kk = [x for x in (deref(repo, WR, wg, mults[0].left),
+                      deref(repo, WR, wg, mults[0].right))
           if isinstance(x, ast.Constant)]
+    if len(kk) != 1:
+        raise AnalysisError("write_image_grayscale: scale factor of the "
+                            "boolean mask is not a constant")
     ok = len(kk) == 1 and isinstance(kk[0].value, int) \
         and 1 <= kk[0].value <= 255
     ctx.ob("R1.5", ok, f"True is stored as {kk[0].value if kk else '?'} "
@@ -1226,9 +1666,15 @@ def r15(ctx, repo):
         sf, attr="write_image_grayscale")]
     wname = None
     for e in isb:
-        if isinstance(e, ast.Compare) and isinstance(e.ops[0], ast.Eq):
-            wname = const_str(e.comparators[0]) or const_str(e.left)
-    ok = wname is not None and disp.get(wname) == "H5MaskEvent"
+        e = deref(repo, WR, sf, e) if e is not None else None
+        if isinstance(e, ast.Compare) and len(e.ops) == 1 and isinstance(
+                e.ops[0], ast.Eq):
+            wname = const_str(deref(repo, WR, sf, e.comparators[0])) \
+                or const_str(deref(repo, WR, sf, e.left))
+    if wname is None:
+        raise AnalysisError("store_feature: the condition under which image "
+                            "data are treated as boolean is not recognised")
+    ok = disp.get(wname) == "H5MaskEvent"
     ctx.ob("R1.5", ok, f"'{wname}' is converted on write and wrapped by "
            f"H5MaskEvent on read" if ok else
            f"boolean conversion applies to '{wname}' but the reader wraps "
@@ -1254,7 +1700,7 @@ def r15(ctx, repo):
            key=f"{WR}::FEATURES_UINT32::disjoint from FEATURES_UINT64",
            nontrivial=False)
     # text codec
-    wt = repo.func(WR, "RTDCWriter.write_text")
+    wt = wfunc(repo, WR, "RTDCWriter.write_text")
     enc = [c for c in find_calls(wt, attr="encode")]
     if not enc:
         raise AnalysisError("write_text: encode lost")
@@ -1262,6 +1708,8 @@ def r15(ctx, repo):
     def codec(c):
         a = kwarg(c, "encoding", 0)
         name = const_str(a) if a is not None else "utf-8"
+        if name is None:
+            raise AnalysisError(f"codec `{short(a, 30)}` is not a literal")
         try:
             return codecs.lookup(name).name
         except (LookupError, TypeError):
@@ -1336,7 +1784,7 @@ def r16(ctx, repo):
            "non-empty events group", node=call,
            label="rectify whenever events exist")
     # event count
-    rm = repo.func(WR, "RTDCWriter.rectify_metadata")
+    rm = wfunc(repo, WR, "RTDCWriter.rectify_metadata")
     asg = [n for n in walk(rm) if isinstance(n, ast.Assign)
            and isinstance(n.targets[0], ast.Subscript)
            and const_str(n.targets[0].slice) == "experiment:event count"]
@@ -1512,7 +1960,7 @@ def _counter_lifetime(ctx, repo, wr, grpvar, key):
 
 
 def r17(ctx, repo):
-    wr = repo.func(WR, "RTDCWriter.write_ragged")
+    wr = wfunc(repo, WR, "RTDCWriter.write_ragged")
     loops = [n for n in walk(wr) if isinstance(n, ast.For)
              and find_calls(n, attr="create_dataset")]
     if len(loops) != 1:
@@ -1673,7 +2121,9 @@ def r18(ctx, repo):
              and isinstance(n.left, ast.Name) and n.left.id == "mode"]
     got = set()
     if valid:
-        got = set(fold_str_list(valid[0].comparators[0], "valid modes"))
+        got = set(fold_str_list(deref(repo, WR, init,
+                                      valid[0].comparators[0]),
+                                "valid modes"))
     ctx.ob("R1.8", got == set(MODES), "exactly append/replace/reset are "
            "accepted" if got == set(MODES) else f"accepted modes: "
            f"{sorted(got)}", node=valid[0] if valid else init,
@@ -1683,7 +2133,7 @@ def r18(ctx, repo):
                         "write_image_grayscale", "write_image_float32")),
                       ("RTDCWriter.write_text", ("create_dataset",
                                                  "resize"))):
-        f = repo.func(WR, q)
+        f = wfunc(repo, WR, q)
         cfg = CFG(f)
         dels = [n for n in walk(f) if isinstance(n, ast.Delete)]
         mode_dels = []
@@ -1775,7 +2225,7 @@ def run(ctx):
     ctx.rule("R1.8", "reset truncates; replace deletes exactly the "
              "addressed data before writing", minimum=9)
 
-    wn = repo.func(WR, "RTDCWriter.write_ndarray")
+    wn = wfunc(repo, WR, "RTDCWriter.write_ndarray")
     fr = find_frame(wn)
 
     def special_chunk(node, s):
@@ -1789,7 +2239,7 @@ def run(ctx):
     stores = r11_frame(ctx, wn, fr, sym, "ndarray")
     r12(ctx, wn, fr, sym, stores)
 
-    wt = repo.func(WR, "RTDCWriter.write_text")
+    wt = wfunc(repo, WR, "RTDCWriter.write_text")
     frt = find_frame(wt)
     # lines_as_bytes holds one entry per line
     lists = set()
@@ -1803,6 +2253,14 @@ def run(ctx):
                         st.value) == "append" and isinstance(
                         st.value.func.value, ast.Name):
                     lists.add(st.value.func.value.id)
+    for n in walk(wt):
+        if isinstance(n, ast.Assign) and len(n.targets) == 1 and isinstance(
+                n.targets[0], ast.Name) and isinstance(
+                n.value, ast.ListComp) and len(n.value.generators) == 1:
+            g = n.value.generators[0]
+            if not g.ifs and isinstance(g.iter, ast.Name) \
+                    and g.iter.id in {lines} | lists:
+                lists.add(n.targets[0].id)
     symt = Sym(wt, {lines} | lists, S("n"))
     r11_frame(ctx, wt, frt, symt, "text")
     r13(ctx, wt, frt)
@@ -1876,6 +2334,85 @@ def _width_after_rebinding(src):
         '                line = line.encode("UTF-8")\n'
         '            max_length = max(max_length, len(line))\n'
         '            lines_as_bytes.append(line)\n')
+
+
+def _extract_block(src, first, last, call, helper_head, before, dedent):
+    """cut the lines from the one starting with `first` to the one starting
+    with `last` (inclusive), put `call` there and a new helper made of
+    `helper_head` + the dedented block in front of the line `before`"""
+    a = src.find(first)
+    b = src.find(last, a)
+    if a < 0 or b < 0 or src.count(before) != 1:
+        return src
+    b = src.index("\n", b) + 1
+    block = src[a:b]
+    body = "".join(line[dedent:] if line.strip() else line
+                   for line in block.splitlines(True))
+    src = src[:a] + call + src[b:]
+    return src.replace(before, helper_head + body + "\n" + before)
+
+
+def _chunk_loop_in_helper(src):
+    return _extract_block(
+        src,
+        "            chunk_size = dset.chunks[0]\n",
+        "                dset[offset+start_e:offset+stop_e] = ",
+        "            self._populate_in_chunks(dset=dset, data=data, "
+        "offset=offset)\n",
+        "    @staticmethod\n"
+        "    def _populate_in_chunks(dset, data, offset):\n"
+        '        """copy `data` to `dset[offset:]` chunk by chunk"""\n',
+        "    def write_ragged(self, group, name, data):\n", 4)
+
+
+def _dispatch_with_constants(src):
+    edits = [
+        ('        elif feat in ["image", "image_bg", "mask", "qpi_oah", '
+         '"qpi_oah_bg"]:\n',
+         "        elif feat in FEATURES_IMAGE_GRAYSCALE:\n"
+         '            is_mask = feat == "mask"\n'),
+        ('is_boolean=(feat == "mask"))', "is_boolean=is_mask)"),
+        ("data=np.arange(nev0 + 1, nev0 + nev + 1),",
+         "data=np.arange(index_first, index_last + 1),"),
+        ("            self.write_ndarray(group=events,\n"
+         '                               name="index",\n',
+         "            index_first = nev0 + 1\n"
+         "            index_last = nev0 + nev\n"
+         "            self.write_ndarray(group=events,\n"
+         '                               name="index",\n'),
+        ("\n\nclass RTDCWriter:\n",
+         '\n\nFEATURES_IMAGE_GRAYSCALE = ["image", "image_bg", "mask", '
+         '"qpi_oah",\n                            "qpi_oah_bg"]\n'
+         "\n\nclass RTDCWriter:\n"),
+    ]
+    for old, new in edits:
+        if src.count(old) != 1:
+            return src
+        src = src.replace(old, new)
+    return src
+
+
+def _lines_by_comprehension(src):
+    old = ("        max_length = 100\n"
+           "        lines_as_bytes = []\n"
+           "        for line in lines:\n" + _TEXT_LOOP)
+    if src.count(old) != 1:
+        return src
+    return src.replace(
+        old,
+        "        lines_as_bytes = [\n"
+        '            line if isinstance(line, bytes) else line.encode('
+        '"UTF-8")\n'
+        "            for line in lines]\n"
+        "        max_length = max([100] + [len(lbytes) for lbytes in "
+        "lines_as_bytes])\n")
+
+
+def _width_over_raw_lines(src):
+    """comprehension form measured on the unencoded lines"""
+    new = _lines_by_comprehension(src)
+    return new.replace("[len(lbytes) for lbytes in lines_as_bytes]",
+                       "[len(line) for line in lines]")
 
 
 MUTANTS = [
@@ -1986,6 +2523,8 @@ MUTANTS = [
       "num_remain = len(dset) % chunk_size"), "R1.2"),
     ("width measured before the line is encoded", WR,
      _width_before_encoding, "R1.3"),
+    ("comprehension form measures the unencoded lines", WR,
+     _width_over_raw_lines, "R1.3"),
 ]
 
 #: apply only to the tree with the repairs of F01 in place (the guarded
@@ -2046,6 +2585,13 @@ TWINS = [
       "num_remain = data.shape[0] % chunk_size")),
     ("line re-bound to its encoded form, then measured", WR,
      _width_after_rebinding),
+    # refactorings by independent agents (reduced to the essential edit)
+    ("chunk loop extracted into a private static helper", WR,
+     _chunk_loop_in_helper),
+    ("dispatch through module constants and single-assignment locals", WR,
+     _dispatch_with_constants),
+    ("encoded lines and width by comprehension", WR,
+     _lines_by_comprehension),
 ]
 
 # mutants that re-introduce the repaired defects (apply to the fixed tree)
